@@ -141,6 +141,16 @@ def plan(tier, seed):
   }
 
 
+def _second_call_wanted(ctx):
+  """Quick tier, three-operator family, per-operator recipes: only the
+  assignments that alternate between float and quantized along the operator
+  list (the most inserted ops); the thorough tier ('n3') takes all."""
+  if ctx.case.get('rp') != 'n3q' or not ctx.subkey.startswith('R3:'):
+    return True
+  q = [m not in ('-', 'NQ') for m in ctx.subkey[3:].split('|')[0].split(',')]
+  return all(a != b for a, b in zip(q, q[1:]))
+
+
 def oracle(ctx):
   fails = _check_model(ctx, ctx.outcome.model, '')
   # "never returns a model that violates any of these": also the model returned
@@ -148,7 +158,8 @@ def oracle(ctx):
   # every recipe of the three-operator / chain / star / blockwise families,
   # where per-operator rules insert ops at float boundaries)
   if (ctx.subkey.startswith('R1:') or ctx.case.get('rp') in
-      ('n3q', 'n3', 'chain', 'star', 'blk')) and ctx.outcome.qt is not None:
+      ('n3q', 'n3', 'chain', 'star', 'blk')) and ctx.outcome.qt is not None \
+      and _second_call_wanted(ctx):
     import copy
     try:
       again = bytes(ctx.outcome.qt.quantize(
